@@ -15,5 +15,6 @@ CONSTANTS
   Hyp_SharedFunctions = FALSE
   Hyp_RhsCachedByName = FALSE
   Hyp_SteadyOneShot = FALSE
+  Hyp_SettingsSurviveReparse = FALSE
 POSTCONDITION AllConsumed
 CHECK_DEADLOCK FALSE
